@@ -153,5 +153,77 @@ fn main() {
             total += 1;
         }
     }
+    // ---- hello accessors as the FIRST call of a fresh thread (the answer is a function of the hello alone,
+    // in every configuration: no per-thread or global state left behind by earlier calls may show)
+    let mut ids: Vec<u16> = vec![0x0000, 0x0001, 0x00ff, 0x1301, 0x5600, 0x0a0a, 0xfffe, 0xffff];
+    ids.extend(CIPHERS.keys().copied());
+    ids.sort();
+    ids.dedup();
+    for id in ids {
+        let r = std::thread::spawn(move || {
+            let random = [3u8; 32];
+            let sh = TlsServerHelloContents::new(0x0303, &random, None, id, 0, None);
+            let first = sh.get_cipher().map(|c| c.id.0);
+            let ch = TlsClientHelloContents::new(0x0303, &random, None, vec![TlsCipherSuiteID(id), TlsCipherSuiteID(0xc02f), TlsCipherSuiteID(id)], vec![], None);
+            let cs: Vec<Option<u16>> = ch.cipher_suites().iter().map(|c| c.map(|c| c.id.0)).collect();
+            let gc: Vec<Option<u16>> = ch.get_ciphers().iter().map(|c| c.map(|c| c.id.0)).collect();
+            format!("{:?} {:?} {:?} {:?}", first, cs, gc, sh.get_cipher().map(|c| c.id.0))
+        })
+        .join()
+        .unwrap_or_else(|_| "thread panicked".to_string());
+        let mut h: u64 = 0xcbf2_9ce4_8422_2325;
+        fnv(&mut h, r.as_bytes());
+        let _ = writeln!(lock, "T {:04x} {:016x}", id, h);
+        total += 1;
+    }
+    // ---- cipher-suite lookup by name: every registered name, then a large volume of strings that are not
+    // names (argv[2] of them, spread over 16 threads); a configuration-dependent index must not change any answer
+    let mut h: u64 = 0xcbf2_9ce4_8422_2325;
+    let mut names: Vec<&'static str> = CIPHERS.values().map(|c| c.name).collect();
+    names.sort();
+    for n in &names {
+        let a = TlsCipherSuite::from_name(n).map(|c| c.id.0);
+        let b = <&'static TlsCipherSuite as core::convert::TryFrom<&str>>::try_from(n).ok().map(|c| c.id.0);
+        fnv(&mut h, format!("{} {:?} {:?}", n, a, b).as_bytes());
+    }
+    let _ = writeln!(lock, "N names {} {:016x}", names.len(), h);
+    total += 1;
+    let volume: u64 = std::env::args().nth(2).and_then(|v| v.parse().ok()).unwrap_or(0);
+    if volume > 0 {
+        let per = volume / 16;
+        let handles: Vec<_> = (0..16u64)
+            .map(|t| {
+                let names = names.clone();
+                std::thread::spawn(move || {
+                    let (mut hits, mut h) = (0u64, 0xcbf2_9ce4_8422_2325u64);
+                    let mut s = String::with_capacity(80);
+                    for k in (t * per)..((t + 1) * per) {
+                        use std::fmt::Write as _;
+                        s.clear();
+                        let mut x = k.wrapping_mul(0x9E37_79B9_7F4A_7C15) ^ 0xD6E8_FEB8_6659_FD93;
+                        x ^= x >> 29;
+                        match k % 4 {
+                            0 => { let _ = write!(s, "TLS_PRIVATE_USE_{:06X}", k); }
+                            1 => { let _ = write!(s, "TLS_EXPERIMENTAL_SUITE_{:X}", x); }
+                            2 => { let _ = write!(s, "{}_{:X}", names[(x % names.len() as u64) as usize], k); }
+                            _ => { let _ = write!(s, "{:016x}", x); }
+                        }
+                        let a = TlsCipherSuite::from_name(&s).map(|c| c.id.0);
+                        let b = <&'static TlsCipherSuite as core::convert::TryFrom<&str>>::try_from(&s[..]).ok().map(|c| c.id.0);
+                        if a.is_some() || b.is_some() {
+                            hits += 1;
+                            fnv(&mut h, format!("{} {:?} {:?}", s, a, b).as_bytes());
+                        }
+                    }
+                    (hits, h)
+                })
+            })
+            .collect();
+        for (t, hd) in handles.into_iter().enumerate() {
+            let (hits, h) = hd.join().expect("name thread");
+            let _ = writeln!(lock, "N volume-shard {} lookups={} hits={} {:016x}", t, per * 2, hits, h);
+            total += 1;
+        }
+    }
     let _ = writeln!(lock, "# items={} digests={}", item, total);
 }
